@@ -491,7 +491,7 @@ func (m *Machine) global(g *ssa.Global) *Object {
 	// make sure the package is initialised (only interpretable packages)
 	if g.Pkg != nil && !m.initDone[g.Pkg] {
 		m.initDone[g.Pkg] = true
-		if interpretablePkg(g.Pkg.Pkg.Path()) {
+		if interpretablePkg(g.Pkg.Pkg.Path()) && !strings.HasPrefix(g.Pkg.Pkg.Path(), "verif.local/") {
 			if initf := g.Pkg.Func("init"); initf != nil && len(initf.Blocks) > 0 {
 				saveSetup := m.inSetup
 				m.callAndRun(&FuncV{Fn: initf}, nil)
